@@ -97,6 +97,7 @@ def generate(unit_dir, mustfail=False, mutate=None, variant=None, template='unit
     i = 0
     n = len(lines)
     mutated = False
+    top_free = []
     active_variant = None
     while i < n:
         line = lines[i]
@@ -262,6 +263,11 @@ def generate(unit_dir, mustfail=False, mutate=None, variant=None, template='unit
                 txt = '#[%s]\n' % o['attr'] + txt
             indent = line[:len(line) - len(line.lstrip())]
             for st in (auto_stubs or {}).get(rname, []):
+                if st['kind'] == 'free' and indent:
+                    # referenced from inside an impl block of the template: a free function goes to the top level
+                    if st['qual'] not in [x['qual'] for x in top_free]:
+                        top_free.append(st)
+                    continue
                 if st['kind'] in ('free', 'method'):
                     stxt = stub_text(st, plain)
                     out.extend((indent + l if l.strip() else l) for l in stxt.split('\n'))
@@ -274,6 +280,17 @@ def generate(unit_dir, mustfail=False, mutate=None, variant=None, template='unit
             raise ExtractError('%s: unknown directive %s' % (tpath, cmd))
     if mutate and not mutated:
         raise ExtractError('mutant target %s not extracted by this unit' % mutate[0])
+    if top_free:
+        k = max(n for n, l in enumerate(out) if l.startswith('fn main()'))
+        extra = []
+        for st in top_free:
+            if st['qual'] in g.auto_stubbed:
+                continue
+            extra.append('' if plain else 'verus! {')
+            extra.extend(stub_text(st, plain).lstrip().split('\n'))
+            extra.append('' if plain else '}')
+            g.auto_stubbed.append(st['qual'])
+        out[k:k] = extra
     mods = {}
     for lst in (auto_stubs or {}).values():
         for st in lst:
